@@ -122,6 +122,9 @@ struct MappedClass {
         }
         bool large = false;
         size_t n = boundary ? (size_t) cfg.range(1, 4) : draw_n(cfg, E, g, large, 6);
+        // sometimes a key count whose raw file is an exact multiple of the page size: a read one key past the mapped input then
+        // lands on the guard page the shim puts behind every mapping
+        if (!boundary && n >= 4096 / sizeof(K) && cfg.chance(250)) n = (n / (4096 / sizeof(K))) * (4096 / sizeof(K));
         draw_env(p, env, large, g.tsan);
         std::string sig = gen_keys_into<K>(p, n, E, chunks_for(env_from_plan(p), n), cfg, work);
         // duplicate runs sized against the search range and the gallop of upper_bound: around powers of two, ending at n
